@@ -121,6 +121,44 @@ Definition global_single (fixed : bool) (thr : Q) (refine : option nat) (m : cma
    | _, None => None
    end, v).
 
+(* ---- any integral_patch_size p >= 1 (Peaks.patch_p / gv_p: even p = half-pixel samples) ----
+   the same function with the patch taken by its size p instead of the radius r *)
+Definition global_peaks_p (fixed : bool) (cms : list (list cmap)) (thr : Q) (refine : option nat)
+  : list (list gpoint) :=
+  let rough := map (map (fun m => global_rough fixed m thr)) cms in
+  let plain := map (map (fun pv : option (nat * nat) * Q => (to_q (fst pv), snd pv))) rough in
+  match refine with
+  | None => plain
+  | Some p =>
+      let flat_r := concat rough in
+      if forallb (fun pv => is_none (fst pv)) flat_r then plain
+      else
+        let B := length cms in
+        let C := length (hd [] cms) in
+        let flat_m := concat cms in
+        let valid := flat_map (fun k => match nth_error flat_r k with
+                                        | Some (Some xy, _) => [(k, xy)]
+                                        | _ => []
+                                        end) (seq 0 (length flat_r)) in
+        let crops := map (fun v : nat * (nat * nat) =>
+                            match nth_error flat_m (fst v) with
+                            | Some m => patch_p m (snd (snd v)) (fst (snd v)) p
+                            | None => []
+                            end) valid in
+        let offsets := map (integral_offset (gv_p p) (gv_p p)) crops in
+        let refined := scatter (map (fun pv => to_q (fst pv)) flat_r)
+                               (combine (map fst valid) offsets) in
+        chunks B C (combine refined (map snd flat_r))
+  end.
+
+Definition global_single_p (fixed : bool) (thr : Q) (refine : option nat) (m : cmap) : gpoint :=
+  let '(pt, v) := global_rough fixed m thr in
+  (match refine, pt with
+   | Some p, Some (x, y) => refine_at_p m x y p
+   | None, _ => to_q pt
+   | _, None => None
+   end, v).
+
 (* ---- selector of finding F2, written as a brute-force scan independent of
         global_rough: the first row and the first column that contain a maximal
         cell do not meet in a maximal cell ---- *)
@@ -146,7 +184,8 @@ Definition selector_F2 (m : cmap) : bool :=
 (* ---- harness interface ---- *)
 Inductive case :=
 | GPeaks (fixed : bool) (cms : list (list cmap)) (thr : Q) (refine : option nat)
-| GSelF2 (ms : list cmap).
+| GSelF2 (ms : list cmap)
+| GPeaksP (fixed : bool) (cms : list (list cmap)) (thr : Q) (refine : option nat).
 
 Inductive result :=
 | RPeaks (l : list (list gpoint))
@@ -156,6 +195,7 @@ Definition run (c : case) : result :=
   match c with
   | GPeaks f cms thr rf => RPeaks (global_peaks f cms thr rf)
   | GSelF2 ms => RBools (map selector_F2 ms)
+  | GPeaksP f cms thr rf => RPeaks (global_peaks_p f cms thr rf)
   end.
 
 Definition rresult (r : result) : rdr :=
